@@ -58,6 +58,8 @@ def run(chk, tier, seed):
                               f"got = sorted(str(x) for x in pathlib.Path(d).glob('x*'))\nprint(got)\nsys.exit(0 if len(got) == 2 else 1)\n")
     finally:
         shutil.rmtree(tmpb, ignore_errors=True)
+    from checks import fixed_clauses
+    fixed_clauses.rglob_exclusions(chk)
     chk.rule = ('bounded stand-in: for every (tree, pattern, flags): list(Path.glob) == [root/x for x in glob.glob(root_dir=root, flags|_NOABSOLUTE|_PATHLIB)] for the root and a '
                 'sub-directory; rglob == glob with the implicit recursive prefix; user FORCEWIN/FORCEUNIX ignored; no duplicates unless NOUNIQUE; q.match(p, REALPATH) <=> q in '
                 'Path(".").rglob(p) for every entry of the tree plus everything rglob returned; globmatch/full_match == glob.globmatch(str [+sep]); Pure classes == FORCEUNIX/FORCEWIN; '
